@@ -4,7 +4,7 @@
 // This file contains comments only; it is compiled only with the build tag "verif" and declares nothing.
 package helpers
 
-//@ spec func OccursAt(in []rune, i int, find []rune) bool = 0 <= i && i + len(find) <= len(in) && forall j int :: 0 <= j && j < len(find) ==> in[i+j] == find[j]
+//@ spec func OccursAt(in []rune, i int, find []rune) bool = 0 <= i && i + len(find) <= len(in) && forall j int {find[j]} :: 0 <= j && j < len(find) ==> in[i+j] == find[j]
 
 // bytesEqual reinterprets the rune slices as bytes through package unsafe; its contract is trusted.
 //@ func bytesEqual(a []rune, b []rune) (eq bool)
@@ -144,7 +144,7 @@ package helpers
 // ---- case-insensitive search helpers (C20: prefix fast paths; C03: first-occurrence semantics) ----
 
 //@ spec func CIEq(c rune, f rune) bool = c == f || unicode.ToLower(c) == f
-//@ spec func CIOccursAt(in []rune, i int, find []rune) bool = 0 <= i && i + len(find) <= len(in) && forall j int :: 0 <= j && j < len(find) ==> CIEq(in[i+j], find[j])
+//@ spec func CIOccursAt(in []rune, i int, find []rune) bool = 0 <= i && i + len(find) <= len(in) && forall j int {find[j]} :: 0 <= j && j < len(find) ==> CIEq(in[i+j], find[j])
 
 //@ func IndexOfIgnoreCase(in []rune, find []rune) (r int)
 //@   props C03 C20
@@ -175,7 +175,7 @@ package helpers
 //@   props C20
 //@   ensures r == AsciiFold(c)
 //@ spec func AsciiFold(c rune) rune = ite('A' <= c && c <= 'Z', c + 32, c)
-//@ spec func AFOccursAt(in []rune, i int, find []rune) bool = 0 <= i && i + len(find) <= len(in) && forall j int :: 0 <= j && j < len(find) ==> AsciiFold(in[i+j]) == AsciiFold(find[j])
+//@ spec func AFOccursAt(in []rune, i int, find []rune) bool = 0 <= i && i + len(find) <= len(in) && forall j int {find[j]} :: 0 <= j && j < len(find) ==> AsciiFold(in[i+j]) == AsciiFold(find[j])
 
 //@ func IndexOfIgnoreCaseAscii(in []rune, find []rune) (r int)
 //@   props C03 C20
